@@ -27,7 +27,7 @@ RULE = (
     "one generation made before those values change and the checked generation after. non-trivial = model has a hostile assignment; distinct = model hash"
 )
 ASSUMPTIONS = ["oracle: the original model and mon/refmodel at 4 random states", "generated numbers are printed with 15 significant digits: tolerance 1e-9"]
-N = {"quick": 300, "thorough": 6000}
+N = {"quick": 300, "thorough": 70000}
 MIN_NONTRIVIAL = {"quick": 100, "thorough": 2000}
 
 
